@@ -59,6 +59,13 @@ def run(ctx):
             for ch, want in ESCAPES.items():
                 ctx.ob("R1", "escape:%s" % ("backslash" if ch == "\\" else ch), got.get(ch) == want, "escape \\%s is rendered as %r; oracle %r" % (ch, got.get(ch), want), fn=pe, how="char dispatch table")
             extra = sorted(set(got) - set(ESCAPES))
+            # `\c` (stop printing and flush) may be one of the arms instead of a test before the dispatch
+            if "c" in extra:
+                tgt_c = edges.get(ord("c"))
+                reg_c = [x for x in pe.reach_from([tgt_c]) if pe.dominates(tgt_c, x)] if tgt_c is not None else []
+                if any(s.rv is not None and s.rv.k == "agg" and s.rv.j.get("adt") == P + "FormatComponent" and s.rv.j.get("variant") == "Flush" for x in reg_c for s in pe.blocks[x].stmts) and \
+                   not any(s.rv is not None and s.rv.k == "agg" and s.rv.j.get("adt") == P + "FormatComponent" and s.rv.j.get("variant") != "Flush" for x in reg_c for s in pe.blocks[x].stmts):
+                    extra.remove("c")
             ctx.ob("R1", "no-extra-escapes", not extra, "unexpected escapes %s" % extra, fn=pe, how="char dispatch table", nontrivial=False)
             # default arm => Err
             dreg = [x for x in pe.reach_from([edges["else"]]) if pe.dominates(edges["else"], x)]
@@ -148,6 +155,17 @@ def run(ctx):
                                         o = prim.origin_of_operand(pf, s.rv.ops[0])
                                         if any(c.get("v") == "%" for c in o.consts()):
                                             pct = True
+        if not pct:
+            # the same decision as an arm of the directive dispatch (`'%' => Literal("%")`)
+            for x in pf.reachable():
+                for s in pf.blocks[x].stmts:
+                    if s.rv is not None and s.rv.k == "agg" and s.rv.j.get("adt") == P + "FormatComponent" and s.rv.j.get("variant") == "Literal":
+                        o = prim.origin_of_operand(pf, s.rv.ops[0])
+                        if any(c.get("v") == "%" for c in o.consts()):
+                            atoms = prim.norm_guards(prim.dominating_guards(pf, x))
+                            is_pct = lambda y: y.strip().k == "const" and (y.strip().a.get("v") in (37, "%") or y.strip().a.get("ch") == "%")
+                            if prim.atom_holds(atoms, "eq", lambda y: y.strip().k != "const", is_pct) is not None:
+                                pct = True
         ctx.ob("R4", "percent-percent", pct, "%% must become the literal text \"%\"", fn=pf, how="branch + constant")
         jl = C.find_local(pf, "justify", ty="printf::Justify")
         if jl:
@@ -456,8 +474,9 @@ def run(ctx):
             elif comp == "Directive":
                 content_bb = b
                 src = fc.args[0][1]
-                from_value = src is not None and any(c.a["callee"] == P + "format_directive" for c in src.call_nodes())
-                ctx.ob("R3", "value-template", plain and just is None and not other and from_value,
+                from_value = src is not None and any(c.a["callee"] == P + "format_directive" for c in prim.expand_single_def_vars(pp, src).call_nodes())
+                neutral = [x for x in other if not ("write_padding" in x or "write_fmt" in x or "Write::" in x)]      # `?` after an earlier output call
+                ctx.ob("R3", "value-template", plain and not neutral and from_value,
                        "the directive's value is written with template %r (value %s) under justify=%s, other conditions %s; oracle: `{}` of format_directive's Ok value — no precision, so never truncated — on every path (padding is separate)" % (shape, src.fmt()[:120] if src is not None else "?", just, other),
                        fn=pp, where=prim.site(pp, b), how="decoded template + dominating guards")
             else:
@@ -491,40 +510,100 @@ def run(ctx):
         # padding: blanks before the value when right-justified, after it when left-justified, the same amount both ways
         pads = [(b, t) for b, t in pp.calls() if (t.callee or "").split("::<")[0] == P + "write_padding"]
         ctx.floor("R3", "padding writes in Printf::print", len(pads), 2)
-        sides = {}
+        # amount: 0 without a width, otherwise width.saturating_sub(number of characters of the value) — however spelled
+        def _amount_ok(fn_, o_):
+            o_ = prim.expand_single_def_vars(fn_, o_).strip()
+            if o_.k == "call" and o_.a["name"] == "map_or" and len(o_.kids) == 3:
+                w, zero, clo = [k.strip() for k in o_.kids]
+                cf_ = prog.fns.get(str(clo.a).split(":", 1)[1]) if clo.k == "agg" and str(clo.a).startswith("closure:") else None
+                if cf_ is None or not (zero.k == "const" and zero.a.get("v") == 0 and any(x.k == "field" and str(x.a) == "width" for x in w.walk())):
+                    return False, o_.fmt()[:120]
+                r_ = prim.simplify(prim.resolve_upvars(prog, cf_, prim.expand_single_def_vars(cf_, prim.origin_of_local(cf_, 0)))).strip()
+                alts_ = [r_]
+            else:
+                if o_.k == "var" and o_.a.get("local") is not None:
+                    alts_ = [prim.expand_single_def_vars(fn_, od_).strip() for _, od_ in prim.defs_origins(fn_, o_.a["local"])]
+                else:
+                    alts_ = [a_.strip() for a_ in prim.flatten_phi(o_)]
+                zeros = [a_ for a_ in alts_ if a_.k == "const" and a_.a.get("v") == 0]
+                alts_ = [a_ for a_ in alts_ if a_ not in zeros]
+                if len(zeros) != 1 or len(alts_) != 1:
+                    return False, o_.fmt()[:120]
+            r_ = alts_[0]
+            if not (r_.k == "call" and r_.a["name"] == "saturating_sub" and len(r_.kids) == 2):
+                return False, r_.fmt()[:120]
+            a_, b_ = [k.strip() for k in r_.kids]
+            wside = a_.k == "arg" or any(x.k == "field" and str(x.a) == "width" for x in a_.walk()) or (a_.k == "variant" and str(a_.a) == "Some") or any(x.k == "variant" and str(x.a) == "Some" for x in a_.walk())
+            cside = [cn_.a["name"] for cn_ in b_.call_nodes()][:2] == ["count", "chars"] and not any(x.k == "bin" for x in b_.walk())
+            return wside and cside, r_.fmt()[:160]
         for b, t in pads:
             comp, just, other = context(b)
-            side = None
-            if content_bb is not None:
-                # within one loop iteration (paths cut at the iterator's next())
-                nxt = [x for x, tt in pp.calls() if tt.j.get("callee_name") == "next" and "Iterator" in (tt.j.get("callee_inst") or "")]
-                fwd = content_bb in pp.reach_from([b], avoid=nxt)
-                bwd = b in pp.reach_from([content_bb], avoid=nxt)
-                side = "before" if fwd and not bwd else ("after" if bwd and not fwd else None)
-            sides.setdefault(just, []).append(side)
-            want = {"Right": "before", "Left": "after"}.get(just)
             recv = prim.origin_of_operand(pp, t.args[0])
-            amt = prim.expand_single_def_vars(pp, prim.origin_of_operand(pp, t.args[1])).strip()
-            okamt = amt.k == "call" and amt.a["name"] == "map_or" and len(amt.kids) == 3
-            cl = None
-            if okamt:
-                w, zero, clo = [k.strip() for k in amt.kids]
-                okamt = any(x.k == "field" and str(x.a) == "width" for x in w.walk()) and any(y.k == "variant" and str(y.a) == "Directive" for y in w.walk()) and zero.k == "const" and zero.a.get("v") == 0
-                cls = [f for f in prog.closures_of(pp)]
-                cl = cls[0] if len(cls) == 1 else None
-                okamt = okamt and cl is not None and clo.k == "agg" and cl.path.split("::")[-1] in str(clo.a)
-            ctx.ob("R3", "padding:%s" % just, comp == "Directive" and want is not None and side == want and not other and okamt and any(x.k == "arg" and x.a["name"] == "out" for x in recv.walk()),
-                   "write_padding(%s, %s) under justify=%s (%s the value; other conditions %s); oracle: to the output, amount = width.map_or(0, |w| w - length of the value, saturating), blanks on the left for Right (default) and on the right for Left ('-')" % (recv.fmt()[:40], amt.fmt()[:160], just, side, other),
-                   fn=pp, where=prim.site(pp, b), how="dominating guards + dominance + provenance slice")
-        ctx.ob("R3", "padding-both-sides", sorted(sides, key=str) == ["Left", "Right"] and all(len(v) == 1 for v in sides.values()), "padding calls by justification: %s; oracle exactly one for Left and one for Right" % sides, fn=pp, how="dominating guards")
-        for cl in prog.closures_of(pp):
-            o = prim.simplify(prim.resolve_upvars(prog, cl, prim.expand_single_def_vars(cl, prim.origin_of_local(cl, 0)))).strip()
-            names = [c.a["name"] for c in o.call_nodes()]
-            ok = o.k == "call" and o.a["name"] == "saturating_sub" and len(o.kids) == 2
-            if ok:
-                a, bq = [k.strip() for k in o.kids]
-                ok = a.k == "arg" and [c.a["name"] for c in bq.call_nodes()][:2] == ["count", "chars"] and not any(x.k == "bin" for x in bq.walk())
-            ctx.ob("R3", "padding-amount", ok, "the padding closure returns %s; oracle: width.saturating_sub(number of characters of the value) — a plain subtraction underflows when the value is longer than the width (the value must then be written whole, unpadded)" % o.fmt()[:200], fn=cl, how="provenance slice")
+            okamt, desc_amt = _amount_ok(pp, prim.origin_of_operand(pp, t.args[1]))
+            ctx.ob("R3", "padding-amount@%s" % (just or "any"), comp == "Directive" and okamt and any(x.k == "arg" and x.a["name"] == "out" for x in recv.walk()),
+                   "write_padding(%s, %s) under component %s; oracle: to the output, amount = 0 without a width, else width.saturating_sub(number of characters of the value) — a plain subtraction underflows when the value is longer than the width" % (recv.fmt()[:40], desc_amt, comp),
+                   fn=pp, where=prim.site(pp, b), how="provenance slice (alternatives)")
+        # order: blanks before the value when right-justified (the default), after it with '-': simulated per justification
+        def jrole(t):
+            n = t.j.get("callee_name")
+            if t.callee == P + "format_directive":
+                return "fd"
+            if (t.callee or "").split("::<")[0] == P + "write_padding":
+                return "pad"
+            if n == "write_fmt" and any(x.k == "arg" and x.a["name"] == "out" for x in prim.origin_of_operand(pp, t.args[0]).walk()):
+                try:
+                    fc_ = fmtlit.format_call_of_operand(pp, t.args[1])
+                except fmtlit.FmtError:
+                    fc_ = None
+                if fc_ is not None and fc_.args and fc_.args[0][1] is not None and any(cn_.a["callee"] == P + "format_directive" for cn_ in prim.expand_single_def_vars(pp, fc_.args[0][1]).call_nodes()):
+                    return "value"
+                return "lit"
+            if n == "next" and "Iterator" in (t.j.get("callee_inst") or ""):
+                return "next"
+            return None
+        def jbrole(f_, bb_, o_):
+            o_ = o_.strip()
+            if o_.k == "discr" and (prim.discr_type_of_switch(f_, bb_) or "").endswith("printf::Justify"):
+                return "just"
+            return None
+        try:
+            jg = C.G(prim.event_graph(pp, jrole, branch_role=jbrole, history=True))
+        except RuntimeError as e:
+            jg = None
+            ctx.ob("R3", "padding-order", False, "cannot decide: %s" % e, fn=pp)
+        if jg is not None:
+            seqs = {}
+            fds = jg.nodes("fd")
+            for jname, jidx in sorted((v, k) for k, v in jn.items()):
+                seq = None
+                if len(fds) == 1:
+                    cur = None
+                    nxt0 = jg.succ(fds[0], "0")
+                    cur = nxt0[0] if len(set(nxt0)) == 1 else None
+                    seq = []
+                    for _ in range(40):
+                        if cur is None:
+                            seq = None
+                            break
+                        r_ = C.base(cur)
+                        if r_ in ("next",) or cur.startswith("RET("):
+                            break
+                        if r_ in ("pad", "value", "lit"):
+                            seq.append(r_)
+                            outs = jg.succ(cur, "0") or jg.succ(cur)
+                        elif r_ == "just":
+                            outs = jg.succ(cur, str(jidx))
+                            if not outs:
+                                outs = jg.succ(cur, "else")
+                        else:
+                            outs = jg.succ(cur)
+                        outs = sorted(set(outs))
+                        cur = outs[0] if len(outs) == 1 else None
+                seqs[jname] = seq
+            want = {"Right": ["pad", "value"], "Left": ["value", "pad"]}
+            ctx.ob("R3", "padding-order", all(seqs.get(k) == v for k, v in want.items()) and set(seqs) == set(want),
+                   "after a directive has been evaluated the output receives %s; oracle: Right (the default) blanks then the value, Left ('-') the value then blanks — the value exactly once on either side, an empty value still padded" % seqs,
+                   fn=pp, how="event graph with history, simulated per justification")
         wp = ctx.fn("R3", P + "write_padding")
         if wp is not None:
             cps = [(b, t) for b, t in wp.calls() if (t.callee or "").startswith("std::io::copy")]
@@ -547,27 +626,6 @@ def run(ctx):
                 ro = prim.origin_of_local(wp, 0)
                 ok = ok and any(c.a["name"] == "copy" for c in ro.call_nodes())
             ctx.ob("R3", "padding-is-blanks", ok, "write_padding = %s; oracle: exactly `count` bytes 0x20 copied to the output, its error returned" % desc, fn=wp, how="provenance slice")
-        # every Ok(content) path writes exactly once: event graph
-        def role(t):
-            n = t.j.get("callee_name")
-            if t.callee == P + "format_directive":
-                return "value"
-            if n == "write_fmt" and any(x.k == "arg" and x.a["name"] == "out" for x in prim.origin_of_operand(pp, t.args[0]).walk()):
-                return "write"
-            if n == "next" and "Iterator" in (t.j.get("callee_inst") or ""):
-                return "next"
-            if n == "flush":
-                return "flush"
-            return None
-        g = C.G(prim.event_graph(pp, role))
-        vals = g.nodes("value")
-        ok = len(vals) == 1
-        if ok:
-            okb = g.succ(vals[0], "0")
-            ok = bool(okb) and all(C.base(x) == "write" for x in okb)
-            for w in okb:
-                ok = ok and all(C.base(y) == "unwrap" or C.base(y) == "next" for y in g.succ(w))
-        ctx.ob("R3", "every-value-is-written", ok, "after a directive has been evaluated its value must be written on every path (an empty value is still padded to the width); events: %s" % g.fmt()[:600], fn=pp, how="event graph")
         for b, t in pp.calls():
             if t.callee == P + "format_directive":
                 a0 = prim.origin_of_operand(pp, t.args[0]).strip()
